@@ -56,6 +56,7 @@ def main(argv):
     ap.add_argument("--no-known", action="store_true")
     ap.add_argument("--no-evidence", action="store_true")
     ap.add_argument("--digests-out")
+    ap.add_argument("--survey")
     ap.add_argument("--seeds", type=int, default=6)
     ap.add_argument("--quiet", action="store_true")
     a = ap.parse_args(argv)
@@ -92,6 +93,7 @@ def main(argv):
         use_known=not a.no_known,
         evidence=not a.no_evidence,
         digests_out=a.digests_out,
+        survey=a.survey,
     )
 
 
